@@ -93,8 +93,15 @@ pub enum Step {
     Yield(u8),
     /// real `std::thread::sleep` in microseconds (metrics profile only)
     Spin(u32),
-    /// send to a peer actor (resolved through the world's weak table + upgrade)
-    Send { to: usize, how: How, msg: Box<Msg> },
+    /// send to a peer actor (resolved through the world's weak table + upgrade);
+    /// `erased`: route the call through a type-erased handler built from the reference
+    Send {
+        to: usize,
+        how: How,
+        msg: Box<Msg>,
+        #[serde(default)]
+        erased: bool,
+    },
     /// `kill()` on own reference (via weak upgrade in on_run/on_stop)
     KillSelf,
     /// kill a peer
